@@ -117,7 +117,14 @@ func c05Job(r *mon.Run, k *world.Key, n int, jr *rand.Rand) {
 	check := func(family, desc string, sig *gabi.CLSignature, msgs []*big.Int, key *world.Key) (lib bool) {
 		r.Distinct(k.Name, n, family, desc)
 		ref := len(msgs) <= len(key.PK.R) && refimpl.CLValid(key.PK, sig, msgs)
+		before := cloneInts(msgs)
 		pv, stack := mon.Try(func() { lib = sig.Verify(key.PK, msgs) })
+		for i := range msgs {
+			if i < len(before) && msgs[i].Cmp(before[i]) != 0 {
+				r.Violation("C05/message-block-modified-by-verify", fmt.Sprintf("CLSignature.Verify changed message %d of the caller's block (%s: %s)", i, family, desc), map[string]any{"shape": shape, "case": family + ": " + desc})
+				msgs[i] = before[i]
+			}
+		}
 		r.Eval(family, outcome(lib, pv))
 		if pv != nil {
 			r.PanicSeen(mon.PanicSite(stack))
@@ -177,7 +184,14 @@ func c05Job(r *mon.Run, k *world.Key, n int, jr *rand.Rand) {
 	}
 
 	// library signature + randomisation chain
+	msBefore := cloneInts(ms)
 	sig, err := gabi.SignMessageBlock(k.SK, pk, ms)
+	for i := range ms {
+		if ms[i].Cmp(msBefore[i]) != 0 {
+			r.Violation("C05/message-block-modified-by-sign", fmt.Sprintf("SignMessageBlock changed message %d of the caller's block", i), map[string]any{"shape": shape})
+			ms[i] = msBefore[i]
+		}
+	}
 	if err != nil {
 		r.Eval("lib-signature", "error")
 		r.Violation("C05/signing-failed", "SignMessageBlock failed: "+err.Error(), map[string]any{"shape": shape, "ms": dumpInts(ms)})
